@@ -534,10 +534,15 @@ func init() {
 	simple("CounterPack1", pack.PACK_COUNTER_1, true, func() pack.Pack { return pack.NewCounterPack1() },
 		func(p pack.Pack, s *rfl.Stream, _ int) {
 			c := p.(*pack.CounterPack1)
-			if s.Intn(3) != 0 {
+			switch s.Intn(6) {
+			case 0, 1, 2:
 				c.DbNumActive, c.DbNumIdle = intIntMap(s), intIntMap(s)
-			} else {
+			case 3:
 				c.DbNumActive, c.DbNumIdle = nil, nil
+			case 4: // only one of the two: the section is absent (it is written when both are set)
+				c.DbNumActive, c.DbNumIdle = intIntMap(s), nil
+			default:
+				c.DbNumActive, c.DbNumIdle = nil, intIntMap(s)
 			}
 			if s.Intn(3) == 0 {
 				c.Extra = nil
@@ -578,6 +583,12 @@ func init() {
 				c.TxcallerUnknown.Acts = nil
 			}
 		}, []string{"ActiveStatKeys", "CollectIntervalMs", "TxcallerUnknown.Acts"})
+	ByName["CounterPack1"].Normalize = func(p pack.Pack) {
+		// the DB-pool section is written when both maps are set; with only one of them the pack travels without it
+		if c := p.(*pack.CounterPack1); c.DbNumActive == nil || c.DbNumIdle == nil {
+			c.DbNumActive, c.DbNumIdle = nil, nil
+		}
+	}
 
 	add(&Spec{Name: "ProfilePack", Code: pack.PACK_PROFILE, Registered: true, New: func() pack.Pack { return pack.NewProfilePack() },
 		Build: func(s *rfl.Stream, depth int) pack.Pack {
